@@ -116,6 +116,41 @@ def run(ctx, proof):
                         if any((not k) and lo != hi for k, lo, hi in tabs[0]):
                             ctx.nontrivial.add((comp, n, tuple(K), tuple(map(float, v))))
                     ctx.sample({"computer": comp, "class": klass, "n": n, "v": [float(x) for x in v][:16], "reveal_sets": [list(s) for s in subsets[:3]]}, limit=4)
+    # environment level: step / unstep in ANY order (not only last-in-first-out) must leave the bounds, reward and
+    # observation of the knowledge that remains - compared with a fresh computation
+    import envlib
+    from incomplete_cooperative.run.model import GAP_FUNCTIONS
+    for _ in range(12 if ctx.quick else 120):
+        n = rng.choice([3, 4, 4, 5])
+        comp = rng.choice(comps_run)
+        klass = "sam" if comp.startswith("sam") else "sa"
+        v = any_game(rng, n, klass)
+        gapn = rng.choice(list(GAP_FUNCTIONS.keys()))
+        env, _ = envlib.make_env(n, comp, gapn, None, games.minimal_ids(n), [v])
+        expl = [c.id for c in env.explorable_coalitions]
+        chosen = []
+        trace = []
+        for _ in range(rng.randint(3, 8)):
+            free = [a for a in range(len(expl)) if a not in chosen]
+            if chosen and (rng.random() < 0.45 or not free):
+                a = rng.choice(chosen)          # any chosen action, not necessarily the last one
+                env.unstep(a)
+                chosen.remove(a)
+                trace.append(("unstep", a))
+            elif free:
+                a = rng.choice(free)
+                env.step(a)
+                chosen.append(a)
+                trace.append(("step", a))
+            K = sorted(games.minimal_ids(n) + [expl[a] for a in chosen])
+            st, fresh = bl.impl_compute(comp, n, v, K)
+            ctx.evaluations += 1
+            if st == "ok" and bl.table_of(env.incomplete_game) != fresh:
+                ctx.violation(f"after {trace} the environment's bounds differ from a fresh computation on the same knowledge ({comp})",
+                              {"comp": comp, "n": n, "v": [str(x) for x in v], "trace": [list(t) for t in trace], "K": K,
+                               "env_table": str(bl.table_of(env.incomplete_game)), "fresh_table": str(fresh)})
+                break
+        ctx.count("env_traces", comp)
     # model correspondence on histories (SA computers on SA games, SAM on SAM games)
     mism = campaign.run_histories(ctx, ["superadditive", "superadditive_cached"], "sa",
                                   [(3, 20, 12), (4, 10, 14)] if ctx.quick else [(3, 200, 30), (4, 150, 30), (5, 40, 30)], [])
